@@ -244,7 +244,7 @@ func main() {
 	}
 	g := grid()
 	r.Extra("option_sets", len(g))
-	n := r.N(400, 10000)
+	n := r.N(1200, 20000)
 	r.Parallel("roundtrip", n, func(i int) {
 		rnd := r.Rand("roundtrip", i)
 		o := g[i%len(g)]
